@@ -2,7 +2,7 @@
    Model: Model/GF8.v (GF(2^8) mod 0x11D; klauspost/reedsolomon with WithPAR1Matrix: Encode, Reconstruct,
    Verify) and Model/Par1.v (Create, the decoder, Verify, Repair) over Model/FS.v. *)
 From Gopar Require Import Model.Base Model.Matrix Model.RS16 Model.GF8 Model.CRC Model.GoPath Model.FS Model.Par1
-     Proofs.LinAlg Proofs.GoPathFacts Proofs.Par2Facts Proofs.GF8Facts Proofs.Par1Facts Proofs.Par1Clean Proofs.Par1RoundTrip.
+     Proofs.LinAlg Proofs.GoPathFacts Proofs.Par2Facts Proofs.GF8Facts Proofs.Par1Facts Proofs.Par1Clean Proofs.Par1RoundTrip Proofs.Par1Volumes.
 Open Scope N_scope.
 
 (* Reconstruct, for EVERY file count, volume count, content and EVERY subset of surviving data files and
@@ -120,3 +120,22 @@ Theorem C04_create_lose_repair_restores : forall md5, (forall x, length (md5 x) 
   rp = filter (fun f => existsb (str_eqb f) lost) files.
 Proof. exact par1_create_lose_repair_ok. Qed.
 Print Assumptions C04_create_lose_repair_restores.
+
+(* A DAMAGED PARITY VOLUME IS UNUSABLE, NOT FATAL (after the fix 2ae8c54): a file at a volume path that the
+   volume reader rejects (identification, version, truncation, control hash) is treated exactly like a missing
+   one - one step of the loader, and the whole loaded state *)
+Theorem C04_unparsable_volume_step : forall md5 ix sethash i n' size acc st b st1 x,
+  io_read (volume_path ix (N.of_nat (S i))) st = (Ok b, st1) -> read_volume md5 b = Err x ->
+  load_vols md5 ix sethash i (S n') size acc st = load_vols md5 ix sethash (S i) n' size (acc ++ [None]) st1.
+Proof. exact load_vols_unparsable_is_unusable. Qed.
+Print Assumptions C04_unparsable_volume_step.
+
+Theorem C04_unparsable_volume_ignored : forall md5 ix k fs fs' b x,
+  (forall p, p <> volume_path ix k -> fs_lookup fs' p = fs_lookup fs p /\ is_dir fs' p = is_dir fs p) ->
+  fs_lookup fs (volume_path ix k) = None -> is_dir fs (volume_path ix k) = false ->
+  fs_lookup fs' (volume_path ix k) = Some b -> read_volume md5 b = Err x ->
+  (forall bi v e, fs_lookup fs ix = Some bi -> read_volume md5 bi = Ok v -> In e (v_entries v) -> saved e = true ->
+     join2 (dir ix) (e_name e) <> volume_path ix k) ->
+  fst (p1_load md5 ix (io_init fs' [])) = fst (p1_load md5 ix (io_init fs [])).
+Proof. exact p1_load_ignores_unparsable_volume. Qed.
+Print Assumptions C04_unparsable_volume_ignored.
